@@ -1,5 +1,6 @@
 """C04: chirality collapse table, R-SAMESRC (lifted definitions get exactly their free variables in one order),
 R-DECLSRC (eta-expansion clauses enumerate the declaration)."""
+from .fresh import is_fresh_call
 from .. import interp, prov
 from ..core import RuleResult
 from ..facts import AnalysisError
@@ -225,7 +226,7 @@ def rule_declsrc(ctx):
             env_ok = roots(crv, "context") == roots(irv, "args")
             def _calls_fresh(k2, depth=0):
                 for _, t in Fn(fx.fns[k2]).calls():
-                    if t.get("callee_name") == "fresh_identifier":
+                    if is_fresh_call(ctx, t):
                         return True
                     k3 = t.get("resolved_key") or (t.get("callee_key") if not t.get("callee_trait") else None)
                     if depth < 1 and k3 in fx.fns and fx.fns[k3]["crate"] == "core2axcut" and _calls_fresh(k3, depth + 1):
